@@ -242,7 +242,7 @@ func (s *script) implLine(i int) string {
 			return "E"
 		case m.kind == "exec" && msg == "unexpected command failure" && s.failPrev[i+1] == "[exec: environment variable contains NUL]":
 			return "X:nul"
-		case m.kind == "raw" && strings.HasPrefix(msg, "unknown command "):
+		case strings.HasPrefix(msg, "unknown command "):
 			if q, err := strconv.QuotedPrefix(strings.TrimPrefix(msg, "unknown command ")); err == nil {
 				if u, err := strconv.Unquote(q); err == nil {
 					return "O1:" + corr.Hx([]byte(u))
@@ -279,8 +279,8 @@ func (s *script) implLine(i int) string {
 }
 
 // modelLine maps the model's answer into the same vocabulary (raw lines only reveal args[0]).
-func modelLine(m lineMeta, out string) string {
-	if m.kind == "raw" && strings.HasPrefix(out, "O:") {
+func modelLine(m lineMeta, impl, out string) string {
+	if (m.kind == "raw" || strings.HasPrefix(impl, "O1:")) && strings.HasPrefix(out, "O:") {
 		first, _, _ := strings.Cut(out[2:], ",")
 		return "O1:" + first
 	}
@@ -424,7 +424,7 @@ func (g *rgen) token() string {
 }
 
 var seps = []string{" ", " ", " ", "\t", "\r", "  ", " \t", "\r ", "\t\t "}
-var probePrefixes = []string{"probe", "probe", "probe", "'probe'", "pro'be'", "$P", "${P}", "p${R}obe", "'pro''be'"}
+var probePrefixes = []string{"probe", "probe", "probe", "'probe'", "pro'be'", "$P", "${P}", "pr${R}obe", "'pro'be"}
 
 func (g *rgen) argsText() string {
 	var sb strings.Builder
@@ -905,7 +905,7 @@ func runScript(tier string, seed int64, model string, replay string) *corr.Resul
 			continue
 		}
 		for j := range s.lines {
-			impl, mod := s.implLine(j), modelLine(s.meta[j], outs[j])
+			impl, mod := s.implLine(j), modelLine(s.meta[j], s.implLine(j), outs[j])
 			res.Evaluations++
 			if impl != mod {
 				res.Disagree(s.replayKey(j), impl, mod)
